@@ -85,6 +85,10 @@ OPTIONS_AFFECTING_CACHE: Final = (
         # errors are stored in the cache (and replayed for fresh modules).
         "show_error_context",
         "show_absolute_path",
+        # These decide whether the "See https://... for more info" notes are
+        # attached when an error is recorded (the notes are cached too).
+        "show_error_code_links",
+        "hide_error_codes",
     }
 ) - {"debug_cache"}
 
